@@ -127,16 +127,28 @@ def concat_all(parts):
     return acc
 
 
+def distribute(uf, pyfn, z, depth=0):
+    """uf(z) for a pure str -> str function: pushed through if-then-else and evaluated by the
+    host at literal leaves (uf(ite(c, a, b)) = ite(c, uf(a), uf(b)); uf("lit") = "lit".pyfn())"""
+    from .sym import is_lit, lit_value
+
+    if is_lit(z):
+        return lit(pyfn(lit_value(z)))
+    if z3.is_app_of(z, z3.Z3_OP_ITE) and depth < 30:
+        return z3.If(z.arg(0), distribute(uf, pyfn, z.arg(1), depth + 1), distribute(uf, pyfn, z.arg(2), depth + 1))
+    return uf(z)
+
+
 def upper(s):
     if conc(s):
         return s.upper()
-    return mk_str(f_upper(s.z))
+    return mk_str(distribute(f_upper, str.upper, s.z))
 
 
 def lower(s):
     if conc(s):
         return s.lower()
-    return mk_str(f_lower(s.z))
+    return mk_str(distribute(f_lower, str.lower, s.z))
 
 
 _PURE = {}
@@ -149,13 +161,13 @@ def pure_method(s, name):
     f = _PURE.get(name)
     if f is None:
         f = _PURE[name] = z3.Function("str_" + name, StrSort, StrSort)
-    return mk_str(f(s.z))
+    return mk_str(distribute(f, lambda x: getattr(x, name)(), s.z))
 
 
 def strip(s):
     if conc(s):
         return s.strip()
-    return mk_str(f_strip(s.z))
+    return mk_str(distribute(f_strip, str.strip, s.z))
 
 
 def startswith(s, p):
@@ -335,6 +347,76 @@ def possible_values(x):
     return None
 
 
+def _shape_ok(parts):
+    """the side conditions of L-join-inj on one structured string"""
+    for k, x in enumerate(parts):
+        if isinstance(x, JoinPiece):
+            if not conc(x.sep) or not x.sep:
+                return False
+            sets = []
+            for _, e in x.items:
+                pv = possible_values(e)
+                if pv is None or any((v == "" or x.sep in v) for v in pv):
+                    return False
+                sets.append(pv)
+            for i in range(len(sets)):
+                for j in range(i + 1, len(sets)):
+                    if sets[i] & sets[j]:
+                        return False
+            if k != len(parts) - 1:
+                nxt = parts[k + 1]
+                if not (conc(nxt) and nxt) or nxt[0] in x.sep or any(nxt[0] in v for pv in sets for v in pv):
+                    return False
+        else:
+            pv = possible_values(x)
+            if pv is None:
+                return False
+            u = sorted(pv)
+            if any(p != q and q.startswith(p) for p in u for q in u):
+                return False
+    return True
+
+
+def _match_concrete(c, parts):
+    """cut the concrete string c along `parts` (whose shape is ok): a list of pieces of the same
+    kinds, False when c cannot be a value of the structure, None when undecided"""
+    rest = c
+    out = []
+    for k, x in enumerate(parts):
+        if isinstance(x, JoinPiece):
+            if k == len(parts) - 1:
+                seg, rest = rest, ""
+            else:
+                i = rest.find(parts[k + 1][0])
+                if i < 0:
+                    return False
+                seg, rest = rest[:i], rest[i:]
+            strs = seg.split(x.sep) if seg != "" else []
+            items = []
+            j = 0
+            for _, e in x.items:
+                pv = possible_values(e)
+                if j < len(strs) and strs[j] in pv:
+                    items.append((z3.BoolVal(True), strs[j]))
+                    j += 1
+                else:
+                    items.append((z3.BoolVal(False), sorted(pv)[0]))
+            if j != len(strs):
+                return False
+            out.append(JoinPiece(x.sep, items))
+        else:
+            pv = possible_values(x)
+            cands = [v for v in pv if rest.startswith(v)]
+            if not cands:
+                return False
+            v = max(cands, key=len)
+            out.append(v)
+            rest = rest[len(v):]
+    if rest:
+        return False
+    return out
+
+
 def structural_eq(a, b, eq_elem):
     """
     Equality of two structured strings by rule L-join-inj: two strings built as
@@ -349,7 +431,23 @@ def structural_eq(a, b, eq_elem):
     form a prefix-free set).
     Returns a z3 Boolean or None.
     """
-    pa, pb = _parts(a), _parts(b)
+    if conc(a) and conc(b):
+        return z3.BoolVal(a == b)
+    if conc(b) and not conc(a):
+        a, b = b, a
+    pb = _parts(b)
+    if conc(a):
+        # a concrete string against a structured one: the concrete string is cut along the
+        # structure (unambiguous under the side conditions, which are checked on b's shape)
+        if not _shape_ok(pb):
+            return None
+        pa = _match_concrete(a, pb)
+        if pa is None:
+            return None
+        if pa is False:
+            return z3.BoolVal(False)
+    else:
+        pa = _parts(a)
     if len(pa) != len(pb):
         return None
     conj = []
